@@ -17,6 +17,8 @@ struct Node : public MockN2k {
 static std::set<unsigned> ownedBefore;   // addresses of our devices before the current op
 static uint64_t claimUntil[16];          // C04 monitor: a device that changed its address (or just opened) is inside its claim window for 250 ms
 static unsigned char addrOf[16];
+struct Sink : public N2kStream { int read() { return -1; } int peek() { return -1; } size_t write(const uint8_t *, size_t n) { return n; } };
+static Sink g_sink;
 static Node *N = nullptr; static tN2kDeviceList *DL = nullptr;
 static int nDev = 1, mode = 2;
 static long delivered = 0; static std::string caseDesc; static bool caseTP = false, caseMoved = false;
@@ -50,6 +52,9 @@ static void exec(const std::string &line) {
     N->EnableForward(false);
     N->SetN2kCANMsgBufSize((uint8_t)slots);
     if (w.size() > 7) N->SetN2kCANSendFrameBufSize((uint16_t)atoi(w[7].c_str()));
+    if (w.size() > 8 && w[8] == "fwd") {   // received and own messages are also written to a forward stream in Actisense format
+      N->SetForwardStream(&g_sink); N->SetForwardType(tNMEA2000::fwdt_Actisense); N->EnableForward(true); N->SetForwardOwnMessages(true); N->SetForwardSystemMessages(true);
+    }
     N->SetMsgHandler(onMsg);
     if (dl) DL = new tN2kDeviceList(N);
     openAndSettle(*N, 700);
@@ -328,6 +333,16 @@ static void directedCases() {
       frame(mkId(6, 59904UL, 45, N->src(devs - 1)), 3, le(126996UL, 3)); exec("t 30"); frame(mkId(6, 59904UL, 45, 255), 3, le(126464UL, 3)); exec("t 300"); }
     // a first message from an unknown source, then silence, then again (device list name-request pacing)
     frame(mkId(2, 127250UL, 90, 255), 8, rnd(8)); exec("t 61000"); frame(mkId(2, 127250UL, 90, 255), 8, rnd(8)); exec("t 1500");
+  }
+  // forwarding in Actisense format: messages whose every byte - payload, source, PGN low byte, reception time - is the escape character
+  for (unsigned long long origin : {0x1010100FULL - 700, 5000ULL}) {
+    char b[160]; snprintf(b, sizeof b, "reset x 2 1 5 0 %llu 40 fwd", origin); exec(b);
+    for (int rep = 0; rep < 3; rep++) for (int L : {223, 222, 120, 8, 1}) {
+      std::vector<unsigned char> pl((size_t)L, 0x10);
+      if (L > 8) cleanFastPacket(130832UL, 2, 0x10, 255, pl, rep); else frame(mkId(2, 130832UL - 0x10 * 0 , 0x10, 255), L, pl);
+      exec("t 1");
+    }
+    exec("send 0 0 130832 255 223"); exec("poll");
   }
 }
 
